@@ -14,7 +14,7 @@ def main(tier, replay=None):
     vk_run(res, "c18clean", src, rd, "0,1,0,0", 1, 1800 if tier == "thorough" else 300, "qmail-clean-requests", opts=opts)
     th = ["thorough=1"] if tier == "thorough" else []
     for prog in ("rspawn", "lspawn"):
-        for fam in ("ids", "cut", "multi"):
+        for fam in ("ids", "cut", "multi", "split", "reuse"):
             vk_run(res, "c18spawn", src, rd, "0,0,0,0", 0, 1500, "%s-command-streams-%s" % (prog, fam), opts=["family=" + fam, "prog=" + prog] + th)
     res.rule = ("qmail-clean: every request of the set {f,o,p,t,d,/,x}^5 x representative suffixes + near-miss keywords x every suffix over "
                 "{1,2,/,.,x,0xFF}^<=4 (thorough: the full product), lengths around the 7/100 limits, numbers around 2^64, unterminated final "
@@ -42,8 +42,10 @@ def main(tier, replay=None):
                  "the spawner opens only numerically named paths below queue/mess, a delivery program is started iff id numeric + regular "
                  "file + queue owner + host part and reads exactly that message, exactly one report per complete command carrying its "
                  "delivery number, documented status letter; the same command sequences with one failing fork/pipe/open of the spawner itself: still one "
-                 "report per command, a temporary one for the command that hit the failure, and the spawner exits at end of input")
+                 "report per command, a temporary one for the command that hit the failure, and the spawner exits at end of input; split: a first delivery program takes its time, "
+                 "the second command arrives cut after every byte and the first delivery finishes between the two pieces: each report carries its own delivery number; "
+                 "reuse: two deliveries one after the other through the same number, every ordered pair of 9 child fates")
     res.assumptions = ["a request is valid iff it is (foop|todo)/<decimal number < 2^64> NUL with total length 7..100"]
-    res.require_nonzero("evaluations", "valid_requests", "rejected_requests", "unlink_failures_injected", "children_started", "reports_checked", "spawner_opens_checked", "reports_stray", "reports_garbage", "reports_oversized")
+    res.require_nonzero("evaluations", "valid_requests", "rejected_requests", "unlink_failures_injected", "children_started", "reports_checked", "spawner_opens_checked", "reports_stray", "reports_garbage", "reports_oversized", "split_commands", "slot_reuses")
     lib_conformance(res, rd, src, ['num', 'io'], tier, asan=False)
     return res.finish()
